@@ -386,7 +386,7 @@ def copy_module_tree(src_root, dst_root):
     shutil.copyfile(src_root, dst_root)
 
 
-def assemble(repo, dest, include_examples=True, witness_dirs=(), sylvia_features=None, splice=True, include_ui=True, permute=None, include_doctests=True):
+def assemble(repo, dest, include_examples=True, witness_dirs=(), sylvia_features=None, splice=True, include_ui=True, permute=None, include_doctests=True, include_repo_tests=True):
     """Build the scratch workspace under dest. Returns list[SourceCrate]."""
     PERMUTE[0] = permute
     if os.path.exists(dest):
@@ -420,7 +420,7 @@ default = [{feat_s}]
 """)
     write(os.path.join(rt, "src", "lib.rs"), "")
     tdir = os.path.join(repo, "sylvia", "tests")
-    for f in sorted(os.listdir(tdir)):
+    for f in (sorted(os.listdir(tdir)) if include_repo_tests else []):
         if not f.endswith(".rs") or f == "ui.rs":
             continue
         name = f[:-3]
@@ -429,7 +429,7 @@ default = [{feat_s}]
         c.suffix = ".test"
         crates.append(c)
     edir = os.path.join(repo, "sylvia", "examples")
-    for f in sorted(os.listdir(edir)):
+    for f in (sorted(os.listdir(edir)) if include_repo_tests else []):
         if not f.endswith(".rs"):
             continue
         name = f[:-3]
